@@ -111,8 +111,12 @@ def statement_trees(mins, schema, rnd, n):
         if rs and rnd.random() < 0.7:
             sl = ["SECLISTMSGSRSV1", None, []]
             for _ in range(rnd.randrange(0, 3)):
+                if rnd.random() < 0.4:
+                    sl[2].append(_c.deepcopy(mins["SECLISTTRNRS"]))      # (transaction wrappers and lists in any order)
                 sl[2].append(["SECLIST", None, [_c.deepcopy(mins[rnd.choice(["STOCKINFO", "MFINFO", "DEBTINFO", "OPTINFO", "OTHERINFO"])])
                                                 for _ in range(rnd.randrange(0, 3))]])
+            if rnd.random() < 0.3:
+                sl[2].append(_c.deepcopy(mins["SECLISTTRNRS"]))
             ofx[2].append(sl)
         out.append(dc.from_nested(ofx))
     return out
